@@ -10,10 +10,11 @@
    3. compile_decodes / compile_container: the statements of C02 / C01 for `compile src = Ok (bytes, log)`.
       The only size hypothesis left is that the FILE is shorter than 2^32 bytes (so every chunk length fits). *)
 From Coq Require Import String Ascii.
-From Sakura.Model Require Import Base Cursor Length Event Writer Song Token LoopMachine LexCore RunCore Tie Compile.
+From Sakura.Model Require Import Base Cursor Length Event Writer Song Token LoopMachine LexCore RunCore Tie Compile RunRsv.
+From Sakura.Model Require Reserve.
 From Sakura.Gen Require Import Consts VarRows.
 From Sakura.Spec Require Import SmfSpec TrackSpec.
-From Sakura.Proofs Require Import VlqP WriterP SortP ContainerP ExtP BlockP LayoutP LogP.
+From Sakura.Proofs Require Import VlqP WriterP SortP ContainerP ExtP RsvP BlockP LayoutP LogP.
 From Coq Require Import Lia Permutation.
 Open Scope list_scope.
 Open Scope Z_scope.
@@ -223,6 +224,25 @@ Proof.
   rewrite Forall_forall in H1. exact (H1 t0 Hin).
 Qed.
 
+(* ---- reservations: the methods add channel events and rewrite tr_rsv; the on-note lists rewrite velocity etc. ---- *)
+Lemma plain_ev_simple e : plain_ev e -> simple e.
+Proof. intros [_ H]. exact H. Qed.
+Lemma track_inv_ext t t' : trk_ext t t' -> track_inv t -> track_inv t'.
+Proof.
+  intros (E & r & HE & ->) [H1 H2]. split; [|exact H2]. cbn [tr_events tr_set_rsv tr_set_events].
+  apply Forall_app. split; [exact H1|]. eapply Forall_impl; [|exact HE]. intros e He. apply simple_eok, plain_ev_simple, He.
+Qed.
+Lemma track_inv_advance t v tm q : track_inv t -> track_inv (rsv_advance t v tm q).
+Proof.
+  intros [H1 H2]. destruct (rsv_advance_frame t v tm q) as (_ & _ & _ & _ & _ & _ & _ & A & B).
+  split; [rewrite B; exact H1|rewrite A; exact H2].
+Qed.
+Lemma inv_set_rand_seed s v : events_inv s -> events_inv (s_set_rand_seed s v).
+Proof. exact (fun H => H). Qed.
+(* on_rt with a function that is an extension *)
+Lemma track_inv_on_rt t f : ev_ext (to_rtrack t) (f (to_rtrack t)) -> track_inv t -> track_inv (on_rt t f).
+Proof. intros H. apply track_inv_ext, on_rt_ext, H. Qed.
+
 (* ---- the arms of step_song that create events ---- *)
 Lemma emit_note_inv s ev nl lettered slur s' :
   events_inv s -> simple ev -> emit_note s ev nl lettered slur = Ok s' -> events_inv s'.
@@ -249,9 +269,24 @@ Proof.
         -- intros E; injection E as <-. apply inv_upd_cur; [|exact H2].
            intros t Ht. apply check_tie_notes_inv, track_inv_push_tie; assumption.
         -- intros E; injection E as <-. apply inv_upd_cur; [|exact H2].
-           intros t Ht. apply track_inv_push; [apply simple_eok, Hev|exact Ht].
+           intros t Ht. apply track_inv_push; [apply simple_eok, Hev|].
+           apply (track_inv_ext t); [apply write_cc_notes_ext|exact Ht].
   - intros E; injection E as <-. apply inv_upd_cur; [|exact H].
-    intros t Ht. apply (track_inv_push t ev (simple_eok _ Hev) Ht).
+    intros t Ht. apply (track_inv_push _ ev (simple_eok _ Hev)).
+    apply (track_inv_ext t); [apply write_cc_notes_ext|exact Ht].
+Qed.
+
+Lemma exec_note_inv s base flag natural len qlen vel timing oct slur s' :
+  events_inv s -> exec_note s base flag natural len qlen vel timing oct slur = Ok s' -> events_inv s'.
+Proof.
+  intros H. unfold exec_note. destr_pairs. apply emit_note_inv; [|apply simple_note].
+  apply inv_set_rand_seed, inv_upd_cur; [|exact H]. intros t Ht. apply track_inv_advance, Ht.
+Qed.
+Lemma exec_note_n_inv s no len qlen vel timing slur s' :
+  events_inv s -> exec_note_n s no len qlen vel timing slur = Ok s' -> events_inv s'.
+Proof.
+  intros H. unfold exec_note_n. destr_pairs. apply emit_note_inv; [|apply simple_note].
+  apply inv_set_rand_seed, inv_upd_cur; [|exact H]. intros t Ht. apply track_inv_advance, Ht.
 Qed.
 
 Lemma exec_voice_inv s args : events_inv s -> events_inv (exec_voice s args).
@@ -301,8 +336,6 @@ Proof.
 Qed.
 
 (* the arms added with the controllers: channel events only *)
-Lemma plain_ev_simple e : plain_ev e -> simple e.
-Proof. intros [_ H]. exact H. Qed.
 Lemma track_inv_push_events t evs : Forall eok evs -> track_inv t -> track_inv (tr_push_events t evs).
 Proof.
   intros He [H1 H2]. split; [|exact H2]. cbn [tr_push_events tr_set_events tr_events].
@@ -415,9 +448,12 @@ Proof.
              | apply exec_time_signature_inv, H
              | apply tempo_change_inv, H
              | apply add_events_inv; [ext_plain|exact H]
-             | apply exec_rpn_direct_inv, H ]).
-  - (* TNote *) unfold exec_note. apply emit_note_inv; [exact H|apply simple_note].
-  - (* TNoteN *) unfold exec_note_n. apply emit_note_inv; [exact H|apply simple_note].
+             | apply exec_rpn_direct_inv, H
+             | apply inv_upd_cur; [intros t0 Ht0; first [destruct w; exact Ht0 | apply track_inv_on_rt; [rsv_ext|exact Ht0]]|exact H]
+             | apply add_events_inv; [ext_plain|];
+               apply inv_upd_cur; [intros t0 Ht0; apply track_inv_on_rt; [rsv_ext|exact Ht0]|exact H] ]).
+  - (* TNote *) apply exec_note_inv, H.
+  - (* TNoteN *) apply exec_note_n_inv, H.
   - (* TVelocity *) destruct (ino >? 0); [discriminate|]. intros E; injection E as <-.
     apply inv_upd_cur; [intros t0 Ht0; exact Ht0|exact H].
   - (* TDiv *)
@@ -486,8 +522,8 @@ Qed.
 Lemma read_command_cc_tb ls no s ln ot s' ln' ls' :
   read_command_cc ls no s ln = Ok (ot, s', ln', ls') -> TB ls -> TB ls'.
 Proof.
-  unfold read_command_cc. intros H I. repeat brk H;
-    injection H as <- <- <- <-; try exact I; eapply read_args_tokens_tb; eassumption.
+  unfold read_command_cc, cc_warn. intros H I. repeat brk H;
+    injection H as <- <- <- <-; try exact I; try (apply tb_add_log, I); eapply read_args_tokens_tb; eassumption.
 Qed.
 Lemma read_cc_tb ls is_c s ln ot s' ln' ls' :
   read_cc ls is_c s ln = Ok (ot, s', ln', ls') -> TB ls -> TB ls'.
@@ -558,7 +594,7 @@ Ltac dsig_tac :=
   cbn [s_tracks s_timebase upd_cur track_sync s_set_tracks s_set_cur s_set_key_flag s_set_key_shift
        s_set_use_key_shift s_set_v_add s_set_q_add s_set_harmony_flag s_set_harmony_time s_set_harmony_events
        s_set_octave_once s_set_break_flag s_set_tempo s_set_timesig_frac s_set_timesig_deno s_set_measure_shift
-       s_set_play_from s_set_lineno s_set_logs s_set_vars s_set_rhythm s_set_harmony s_set_time s_set_adds];
+       s_set_play_from s_set_lineno s_set_logs s_set_vars s_set_rhythm s_set_rand_seed s_set_harmony s_set_time s_set_adds];
   rewrite ?upd_nth_length, ?map_length; reflexivity.
 
 Lemma dsig_upd_cur s f : dsig (upd_cur s f) = dsig s.
@@ -581,6 +617,18 @@ Proof.
     intros E; injection E as <-; dsig_tac.
 Qed.
 
+Lemma dsig_set_rand_seed s v : dsig (s_set_rand_seed s v) = dsig s.
+Proof. reflexivity. Qed.
+Lemma dsig_exec_note s base flag natural len qlen vel timing oct slur s' :
+  exec_note s base flag natural len qlen vel timing oct slur = Ok s' -> dsig s' = dsig s.
+Proof.
+  unfold exec_note. destr_pairs. intros E. apply dsig_emit_note in E. rewrite E, dsig_set_rand_seed. apply dsig_upd_cur.
+Qed.
+Lemma dsig_exec_note_n s no len qlen vel timing slur s' :
+  exec_note_n s no len qlen vel timing slur = Ok s' -> dsig s' = dsig s.
+Proof.
+  unfold exec_note_n. destr_pairs. intros E. apply dsig_emit_note in E. rewrite E, dsig_set_rand_seed. apply dsig_upd_cur.
+Qed.
 Lemma dsig_exec_voice s args : dsig (exec_voice s args) = dsig s.
 Proof. unfold exec_voice. destruct args as [|a [|b l]]; apply dsig_upd_cur. Qed.
 Lemma dsig_harmony_end s len q vel : dsig (exec_harmony_end s len q vel) = dsig s.
@@ -625,9 +673,10 @@ Proof.
   intros Hec t s s' H. destruct t; cbn [step_song];
   try (intros E; injection E as <-; apply (dims_of_dsig s); [|exact H];
        first [ reflexivity | dsig_tac | apply dsig_harmony_end | apply dsig_exec_voice
-             | apply dsig_time_signature | apply dsig_tempo_change | apply dsig_add_events | apply dsig_exec_rpn_direct ]).
-  - (* TNote *) unfold exec_note. intros E. apply dsig_emit_note in E. apply (dims_of_dsig s _ E H).
-  - (* TRest *) intros E; injection E as <-. apply (dims_of_dsig s _ (dsig_upd_cur s _) H).
+             | apply dsig_time_signature | apply dsig_tempo_change | apply dsig_add_events | apply dsig_exec_rpn_direct
+             | (rewrite dsig_add_events; apply dsig_upd_cur) | apply dsig_upd_cur ]).
+  - (* TNote *) intros E. apply dsig_exec_note in E. apply (dims_of_dsig s _ E H).
+  - (* TNoteN *) intros E. apply dsig_exec_note_n in E. apply (dims_of_dsig s _ E H).
   - (* TVelocity *) destruct (ino >? 0); [discriminate|]. intros E; injection E as <-.
     apply (dims_of_dsig s _ (dsig_upd_cur s _) H).
   - (* TDiv *)
